@@ -34,13 +34,13 @@ rrec = (a, x) => if x <= 0 then a else rrec(a + 1, x - 1)
 
 /// (name or expression, arity class: how many positional arguments it accepts up to 3)
 struct F {
-    src: &'static str,
+    src: String,
     accepts: [bool; 4], // accepts[n] = can be called with n arguments
 }
 
 fn unary_funcs() -> Vec<F> {
-    let f = |src, a1, a2, a3| F { src, accepts: [false, a1, a2, a3] };
-    vec![
+    let f = |src: &str, a1, a2, a3| F { src: src.to_string(), accepts: [false, a1, a2, a3] };
+    let mut v = vec![
         f("inc", true, false, false),
         f("add", false, true, false),
         f("opt", true, true, false),
@@ -72,20 +72,80 @@ fn unary_funcs() -> Vec<F> {
         f("len", true, false, false),
         f("sum", true, true, true),
         // built-ins that take exactly two arguments (element, index)
-        F { src: "ugt", accepts: [false, false, true, false] },
-        F { src: "includes", accepts: [false, false, true, false] },
-        F { src: "chunk", accepts: [false, false, true, false] },
-        F { src: "concat", accepts: [false, false, true, true] },
-        F { src: "format", accepts: [false, true, true, true] },
-        F { src: "min", accepts: [false, true, true, true] },
+        f("ugt", false, true, false),
+        f("includes", false, true, false),
+        f("chunk", false, true, false),
+        f("concat", false, true, true),
+        f("format", true, true, true),
+        f("min", true, true, true),
         f("5", false, false, false),
         f("nothing_bound", false, false, false),
-    ]
+    ];
+    // every parameter shape (required, optional, rest), as a function returning its parameters and
+    // as a predicate on its second parameter
+    for sh in shapes() {
+        v.push(F { src: sh.name.clone(), accepts: sh.accepts });
+        v.push(F { src: format!("p{}", sh.name), accepts: sh.accepts });
+    }
+    v
+}
+
+struct Shape {
+    name: String,
+    params: String,
+    names: Vec<String>,
+    accepts: [bool; 4],
+}
+
+/// Every parameter list with r required, o optional parameters and an optional rest parameter,
+/// 1 <= r + o + rest <= 4.
+fn shapes() -> Vec<Shape> {
+    let mut out = vec![];
+    for r in 0..=3usize {
+        for o in 0..=3usize {
+            for rest in [false, true] {
+                let n = r + o + rest as usize;
+                if n == 0 || n > 4 {
+                    continue;
+                }
+                let mut names: Vec<String> = vec![];
+                let mut params: Vec<String> = vec![];
+                for i in 0..r {
+                    names.push(format!("p{}", i));
+                    params.push(format!("p{}", i));
+                }
+                for i in 0..o {
+                    names.push(format!("q{}", i));
+                    params.push(format!("q{}?", i));
+                }
+                if rest {
+                    names.push("z".into());
+                    params.push("...z".into());
+                }
+                let mut accepts = [false; 4];
+                for (k, a) in accepts.iter_mut().enumerate() {
+                    *a = k >= 1 && k >= r && (rest || k <= r + o);
+                }
+                out.push(Shape { name: format!("sh_r{}o{}{}", r, o, if rest { "z" } else { "" }), params: params.join(", "), names, accepts });
+            }
+        }
+    }
+    out
+}
+
+fn prelude() -> String {
+    let mut p = PRELUDE.to_string();
+    for sh in shapes() {
+        p.push_str(&format!("{} = ({}) => [{}]\n", sh.name, sh.params, sh.names.join(", ")));
+        let second = sh.names.get(1).cloned().unwrap_or_else(|| "0".into());
+        p.push_str(&format!("p{} = ({}) => typeof({}) == \"number\"\n", sh.name, sh.params, second));
+    }
+    p
 }
 
 fn fold_funcs() -> Vec<F> {
-    let f = |src, a2, a3| F { src, accepts: [false, false, a2, a3] };
-    vec![
+    let f = |src: &str, a2, a3| F { src: src.to_string(), accepts: [false, false, a2, a3] };
+    let mut v = vec![
         f("radd", true, false),
         f("r3", false, true),
         f("ropt", true, true),
@@ -96,7 +156,11 @@ fn fold_funcs() -> Vec<F> {
         f("two", true, false),
         f("((a, x) => a * 2 + x)", true, false),
         f("inc", false, false),
-    ]
+    ];
+    for sh in shapes() {
+        v.push(F { src: sh.name.clone(), accepts: [false, false, sh.accepts[2], sh.accepts[3]] });
+    }
+    v
 }
 
 fn lists(thorough: bool) -> Vec<Vec<RV>> {
@@ -129,7 +193,7 @@ fn same(a: &Outcome, b: &Outcome) -> bool {
 
 fn check_list(ctx: &Ctx, l: &[RV]) {
     let mut sess = Session::new();
-    let o = sess.run(PRELUDE);
+    let o = sess.run(&prelude());
     if !o.is_ok() {
         ctx.machinery_error(format!("prelude failed: {:?}", o));
         return;
@@ -198,7 +262,7 @@ fn check_list(ctx: &Ctx, l: &[RV]) {
                 if e != Outcome::Ok(all.to_string()) {
                     ctx.violation(Violation {
                         kind: "every".into(),
-                        class: f.src.to_string(),
+                        class: f.src.clone(),
                         input: format!("every({}, {})", ls, f.src),
                         expected: all.to_string(),
                         observed: e.cmp_key(),
@@ -208,7 +272,7 @@ fn check_list(ctx: &Ctx, l: &[RV]) {
                 if s != Outcome::Ok(any.to_string()) {
                     ctx.violation(Violation {
                         kind: "some".into(),
-                        class: f.src.to_string(),
+                        class: f.src.clone(),
                         input: format!("some({}, {})", ls, f.src),
                         expected: any.to_string(),
                         observed: s.cmp_key(),
@@ -232,7 +296,7 @@ fn class_of(a: &str, b: &str) -> String {
 pub fn run(ctx: &Ctx, replay: Option<&J>) -> i32 {
     if let Some(r) = replay {
         let mut sess = Session::new();
-        sess.run(PRELUDE);
+        sess.run(&prelude());
         let a = r["case"]["a"].as_str().unwrap_or("");
         let b = r["case"]["b"].as_str().unwrap_or("");
         let (oa, ob) = (sess.run(a), sess.run(b));
@@ -246,7 +310,7 @@ pub fn run(ctx: &Ctx, replay: Option<&J>) -> i32 {
     let ls = lists(!ctx.quick());
     par_for_ctx(ctx, ls.len(), |i| check_list(ctx, &ls[i]));
     ctx.set("lists", json!(ls.len()));
-    ctx.set("functions", json!(unary_funcs().iter().map(|f| f.src).collect::<Vec<_>>()));
+    ctx.set("functions", json!(unary_funcs().iter().map(|f| f.src.clone()).collect::<Vec<_>>()));
     ctx.sample(json!({"a": "[3, 1] via fact", "b": "map([3, 1], fact)"}));
     ctx.sample(json!({"a": "[0, 1, 3] where idx_even", "b": "filter([0, 1, 3], idx_even)"}));
     ctx.sample(json!({"a": "reduce([1, 3], r3, 0)", "b": "r3(r3(0, 1, 0), 3, 1)"}));
@@ -258,7 +322,7 @@ pub fn run(ctx: &Ctx, replay: Option<&J>) -> i32 {
     finish(
         ctx,
         "exploration",
-        "every list (all words of length <= 3/4 over a 6-value alphabet plus periodic extensions to 10) x every function of a 38-entry pool (arity 1, 2, optional, rest, closures, curried, self-recursive, mutually recursive, built-ins of each arity class, non-functions) x the equivalent program pairs via/map, where/filter, into/application, unrolled element+index calls, reduce/unrolled fold, every/some vs fold of predicate results; both forms evaluated in the same session; distinct = distinct left-hand programs",
+        "every list (all words of length <= 3/4 over a 6-value alphabet plus periodic extensions to 10) x every function of a 38-entry pool plus every parameter shape (0..3 required, 0..3 optional, rest; as a function returning its parameters and as a predicate on its second parameter) (arity 1, 2, optional, rest, closures, curried, self-recursive, mutually recursive, built-ins of each arity class, non-functions) x the equivalent program pairs via/map, where/filter, into/application, unrolled element+index calls, reduce/unrolled fold, every/some vs fold of predicate results; both forms evaluated in the same session; distinct = distinct left-hand programs",
         true,
         None,
     )
